@@ -167,6 +167,16 @@ func c18Helper(c *Ctx) {
 		}
 		if r.Bool() {
 			spec.Body = ref.Pick(r, traceChunks) + ref.Pick(r, traceChunks) + strings.Repeat("z", r.Intn(50))
+			if r.Chance(1, 5) {
+				// scale: a body of 2-40 KB in which metacharacters sit at every offset class (random filler lengths between them)
+				var b strings.Builder
+				for n := r.Range(2000, 40000); b.Len() < n; {
+					b.WriteString(strings.Repeat("z", r.Intn(7)))
+					b.WriteString(ref.Pick(r, []string{"<", ">", "&", "'", "\"", "<<&&>>", "&amp;", "é"}))
+				}
+				spec.Body = b.String()
+				c.Class("helper_body_of_several_kilobytes")
+			}
 			spec.Framing = ref.Pick(r, []string{"", "", "unknown-length", "chunked"})
 			if spec.Framing != "" {
 				c.Class("helper_body_of_unknown_length")
